@@ -1281,12 +1281,12 @@ class sptensor:
 
         # Find which values in the mask match nonzeros in X
         valid, idx = tt_ismember_rows(wsubs, self.subs)
-        matching_indices = idx[valid]
 
         # Assemble return array
         nvals = wsubs.shape[0]
         vals = np.zeros((nvals, 1))
-        vals[matching_indices] = self.vals[matching_indices]
+        if np.any(valid):
+            vals[valid] = self.vals[idx[valid]]
         return vals
 
     def mttkrp(
